@@ -600,15 +600,19 @@ func (f *frame) rangeInfo(st *State, li *loopInfo) (idx *Cell, ln T, ok bool) {
 
 // concreteRange: a range loop over a collection of concrete length (literal tables, captured
 // signature lists after init) can be unrolled exactly.
-func (f *frame) concreteRange(st *State, li *loopInfo) bool {
+func (f *frame) concreteRange(st *State, li *loopInfo) bool { return f.concreteRangeMax(st, li, 64) }
+
+func (f *frame) concreteRangeMax(st *State, li *loopInfo, max int64) bool {
 	if !li.isRange {
 		return false
 	}
 	for _, ins := range li.header.Instrs {
 		if b, isB := ins.(*ssa.BinOp); isB && b.Op.String() == "<" {
 			if v, has := st.regs[b.Y]; has {
-				if n, ok := isNum(v.(VInt).T); ok && n.IsInt64() && n.Int64() <= 64 {
-					return true
+				if iv, isInt := v.(VInt); isInt {
+					if n, ok := isNum(iv.T); ok && n.IsInt64() && n.Int64() <= max {
+						return true
+					}
 				}
 			}
 		}
@@ -740,6 +744,17 @@ func (f *frame) invariants(st *State, li *loopInfo, ls *LoopSpec) (labels []stri
 				env.skipBlocks[b] = true
 			}
 		}
+		if !li.isRange {
+			// contracts written for a range loop name its hidden index `rangeindex` (the index of the last
+			// element processed); in the equivalent index loop that is the induction variable minus one
+			if a := f.inductionVar(li); a != nil {
+				if c := f.cellOf[a]; c != nil {
+					if iv, ok := st.cells[c].(VInt); ok {
+						env.vars["rangeindex"] = VInt{tSub(iv.T, "1")}
+					}
+				}
+			}
+		}
 		for _, c := range ls.Invariants {
 			labels = append(labels, c.Label)
 			terms = append(terms, env.evalBool(c.E))
@@ -772,10 +787,34 @@ func (f *frame) needsAuto(li *loopInfo, ls *LoopSpec) bool {
 	if li.isRange || f.ex.initMode {
 		return false
 	}
-	if ls != nil && (len(ls.Invariants) > 0 || ls.Unroll || ls.Terminates != "") {
+	if ls != nil && (ls.Unroll || ls.Terminates != "") {
 		return false
 	}
+	if ls != nil && len(ls.Invariants) > 0 && len(ls.Decreases) > 0 {
+		return false
+	}
+	// no annotation, or invariants without a variant (a range loop that a change turned into an
+	// index loop keeps its invariants but has lost the built-in bounds and variant)
 	return true
+}
+
+// inductionVar: for `for i := ...; i < n; i++` style loops, the local compared in the loop condition.
+func (f *frame) inductionVar(li *loopInfo) *ssa.Alloc {
+	for _, ins := range li.header.Instrs {
+		b, ok := ins.(*ssa.BinOp)
+		if !ok {
+			continue
+		}
+		switch b.Op.String() {
+		case "<", "<=", "!=":
+			if u, ok := b.X.(*ssa.UnOp); ok {
+				if a, ok := u.X.(*ssa.Alloc); ok && a.Comment != "" {
+					return a
+				}
+			}
+		}
+	}
+	return nil
 }
 
 // autoCandidates: Houdini-style candidate invariants over the variables a loop modifies, relative
@@ -806,6 +845,32 @@ func (f *frame) autoCandidates(st *State, li *loopInfo) (labels []string, terms 
 		}
 		if v, ok := entry.cells[c].(VSlice); ok && al.Comment != "" {
 			lens = append(lens, sl{al.Comment, v})
+		}
+	}
+	// slice-typed fields of heap objects passed as parameters (e.g. len(m.aliases)), when the loop
+	// does not store to that field
+	for i, p := range f.fn.Params {
+		r, ok := f.params[i].(VRef)
+		if !ok || r.St == nil {
+			continue
+		}
+		u, ok := r.St.Underlying().(*types.Struct)
+		if !ok {
+			continue
+		}
+		for fi := 0; fi < u.NumFields(); fi++ {
+			if _, isSl := u.Field(fi).Type().Underlying().(*types.Slice); !isSl {
+				continue
+			}
+			if mods.fields[namedKey(r.St)+"."+u.Field(fi).Name()] {
+				continue
+			}
+			func() {
+				defer func() { recover() }()
+				if v, ok := ex.heapLoad(st, r.St, fi, r.T).(VSlice); ok {
+					lens = append(lens, sl{"field_" + p.Name() + "_" + u.Field(fi).Name(), v})
+				}
+			}()
 		}
 	}
 	type iv struct {
@@ -1190,6 +1255,14 @@ func sameVal(a, b Val) bool {
 // separately when a slice-valued result or a slice-valued variable of the caller differs.
 func forkWorthwhile(orig *State, rets []retPath) bool {
 	for i := range rets[0].vals {
+		if _, ok := rets[0].vals[i].(VMap); ok {
+			// maps are path-concrete: merging two different maps would lose their entries
+			for _, r := range rets[1:] {
+				if !sameVal(r.vals[i], rets[0].vals[i]) {
+					return true
+				}
+			}
+		}
 		if _, ok := rets[0].vals[i].(VSlice); ok {
 			for _, r := range rets[1:] {
 				if !sameVal(r.vals[i], rets[0].vals[i]) {
